@@ -473,3 +473,11 @@ func init() {
 		c.ok("dbg", "x", "", "")
 	})
 }
+
+func init() {
+	register("CONCAP", func(c *Ctx) {
+		n := concurrentCaptureRule(c, "concurrent-capture", func(string) bool { return true })
+		fmt.Println("captured cells inspected:", n)
+		c.ok("dbg", "x", "", "")
+	})
+}
